@@ -11,11 +11,14 @@ structure Sim (S : T → Bool) (j : Nat) (s a : State T H A R) : Prop where
   db : DbSim S (fun k => decide (k = j)) s.db a.db
   sess : s.sess j = a.sess j
 
-/-- the name-space discipline: `j`'s session and tasks live inside `S`, everybody else's outside -/
+/-- a task that may still act: its blocking part has not ended or its result is not written yet -/
+def live (t : TaskRec T A) : Bool := !(t.blockingDone && t.written)
+
+/-- the name-space discipline: `j`'s session and live tasks lie inside `S`, everybody else's outside -/
 structure NsInv (S : T → Bool) (j : Nat) (s : State T H A R) : Prop where
   mine : ∀ u, s.sess j = some u → S u = true
   others : ∀ k, k ≠ j → ∀ u, s.sess k = some u → S u = false
-  tasks : ∀ t ∈ s.db.tasks, S t.username = decide (t.jar = j)
+  tasks : ∀ t ∈ s.db.tasks, live t = true → S t.username = decide (t.jar = j)
 
 /-- the account names an event mentions lie in `S` -/
 def Event.namesIn (S : T → Bool) : Event T → Prop
@@ -24,16 +27,16 @@ def Event.namesIn (S : T → Bool) : Event T → Prop
 
 /-- tasks keep their tags -/
 def TasksTagged (S : T → Bool) (j : Nat) (db : Db T H A R) : Prop :=
-  ∀ t ∈ db.tasks, S t.username = decide (t.jar = j)
+  ∀ t ∈ db.tasks, live t = true → S t.username = decide (t.jar = j)
 
 theorem exec_tagged_in {S : T → Bool} {j : Nat} (db : Db T H A R) (c : Cmd T H A R)
     (hc : CmdIn S (fun k => decide (k = j)) c) (h : TasksTagged S j db) : TasksTagged S j (exec db c).1 := by
   cases c with
   | spawn t =>
-    intro x hx
+    intro x hx _
     simp only [exec, List.mem_append, List.mem_singleton] at hx
     rcases hx with hx | hx
-    · exact h x hx
+    · exact h x hx ‹_›
     · subst hx
       have h2 : decide (x.jar = j) = true := hc.2
       rw [hc.1, h2]
@@ -46,10 +49,10 @@ theorem exec_tagged_out {S : T → Bool} {j : Nat} (db : Db T H A R) (c : Cmd T 
     TasksTagged S j (exec db c).1 := by
   cases c with
   | spawn t =>
-    intro x hx
+    intro x hx _
     simp only [exec, List.mem_append, List.mem_singleton] at hx
     rcases hx with hx | hx
-    · exact h x hx
+    · exact h x hx ‹_›
     · subst hx
       have h1 : S x.username = false := by have := hc.1; cases hS : S x.username <;> simp_all
       have h2 : decide (x.jar = j) = false := by have := hc.2; cases hd : decide (x.jar = j) <;> simp_all
@@ -194,12 +197,13 @@ theorem mem_updNth (jar : Nat) (f : TaskRec T A → TaskRec T A) : ∀ (n : Nat)
         · exact Or.inr ⟨y, List.mem_cons_of_mem _ hy, h⟩
 
 theorem tagged_updNth {S : T → Bool} {j : Nat} (jar n : Nat) (f : TaskRec T A → TaskRec T A)
-    (hf : ∀ t, (f t).jar = t.jar ∧ (f t).username = t.username) (l : List (TaskRec T A))
-    (h : ∀ t ∈ l, S t.username = decide (t.jar = j)) : ∀ t ∈ updNth jar f n l, S t.username = decide (t.jar = j) := by
-  intro t ht
+    (hf : ∀ t, (f t).jar = t.jar ∧ (f t).username = t.username ∧ (live (f t) = true → live t = true)) (l : List (TaskRec T A))
+    (h : ∀ t ∈ l, live t = true → S t.username = decide (t.jar = j)) :
+    ∀ t ∈ updNth jar f n l, live t = true → S t.username = decide (t.jar = j) := by
+  intro t ht hl
   rcases mem_updNth jar f n l t ht with h' | ⟨y, hy, h'⟩
-  · exact h t h'
-  · subst h'; rw [(hf y).1, (hf y).2]; exact h y hy
+  · exact h t h' hl
+  · subst h'; rw [(hf y).1, (hf y).2.1]; exact h y hy ((hf y).2.2 hl)
 
 theorem filter_erase_in (S : T → Bool) (i : RInfo T) (l : List (RInfo T)) :
     (eraseInfo i l).filter (fun x => S x.username) = eraseInfo i (l.filter (fun x => S x.username)) := by
@@ -226,10 +230,10 @@ theorem dbEv_mine (E : Env T H A R) {S : T → Bool} {j : Nat} {d a : Db T H A R
     DbSim S (fun k => decide (k = j)) (dbEv E d e) (dbEv E a e) ∧ TasksTagged S j (dbEv E d e) ∧ TasksTagged S j (dbEv E a e) := by
   have hnth : ∀ n, nthOf j n d.tasks = nthOf j n a.tasks := by
     intro n; rw [← nthOf_filter j n d.tasks, ← nthOf_filter j n a.tasks, sim.tasks]
-  have hSt : ∀ n t, nthOf j n d.tasks = some t → S t.username = true := by
-    intro n t ht
+  have hSt : ∀ n t, nthOf j n d.tasks = some t → live t = true → S t.username = true := by
+    intro n t ht hl
     have := nthOf_mem j n d.tasks t ht
-    rw [td t this.1]; simp [this.2]
+    rw [td t this.1 hl]; simp [this.2]
   cases e with
   | req rq => exact absurd rfl (hreq rq)
   | finish k n =>
@@ -246,8 +250,8 @@ theorem dbEv_mine (E : Env T H A R) {S : T → Bool} {j : Nat} {d a : Db T H A R
         · simp only; rw [filter_erase_in, filter_erase_in, sim.running]
         · simp only
           rw [updNth_filter_in k (fun t => { t with blockingDone := true }) (fun _ => rfl), updNth_filter_in k (fun t => { t with blockingDone := true }) (fun _ => rfl), sim.tasks]
-        · exact tagged_updNth k n (fun t => { t with blockingDone := true }) (fun _ => ⟨rfl, rfl⟩) d.tasks td
-        · exact tagged_updNth k n (fun t => { t with blockingDone := true }) (fun _ => ⟨rfl, rfl⟩) a.tasks ta
+        · exact tagged_updNth k n (fun t => { t with blockingDone := true }) (fun t => ⟨rfl, rfl, by cases hb : t.blockingDone <;> cases hw : t.written <;> simp [live, hb, hw]⟩) d.tasks td
+        · exact tagged_updNth k n (fun t => { t with blockingDone := true }) (fun t => ⟨rfl, rfl, by cases hb : t.blockingDone <;> cases hw : t.written <;> simp [live, hb, hw]⟩) a.tasks ta
   | write k n =>
     simp only [Event.jar] at hj; subst hj
     simp only [dbEv]
@@ -257,14 +261,14 @@ theorem dbEv_mine (E : Env T H A R) {S : T → Bool} {j : Nat} {d a : Db T H A R
     | some t =>
       simp only
       split
-      · have hc : CmdIn S (fun x => decide (x = k)) (.pSet t.username t.name (taskWrite E t.input) : Cmd T H A R) := hSt n t ht
+      · have hc : CmdIn S (fun x => decide (x = k)) (.pSet t.username t.name (taskWrite E t.input) : Cmd T H A R) := hSt n t ht (by cases hb : t.blockingDone <;> cases hw : t.written <;> simp_all [live])
         have hx := (exec_in sim _ hc).2
         refine ⟨⟨hx.users, hx.probs, hx.running, ?_⟩, ?_, ?_⟩
         · simp only
           rw [updNth_filter_in k (fun t => { t with written := true }) (fun _ => rfl), updNth_filter_in k (fun t => { t with written := true }) (fun _ => rfl)]
           exact congrArg _ hx.tasks
-        · exact tagged_updNth k n (fun t => { t with written := true }) (fun _ => ⟨rfl, rfl⟩) _ td
-        · exact tagged_updNth k n (fun t => { t with written := true }) (fun _ => ⟨rfl, rfl⟩) _ ta
+        · exact tagged_updNth k n (fun t => { t with written := true }) (fun t => ⟨rfl, rfl, by cases hb : t.blockingDone <;> cases hw : t.written <;> simp [live, hb, hw]⟩) _ td
+        · exact tagged_updNth k n (fun t => { t with written := true }) (fun t => ⟨rfl, rfl, by cases hb : t.blockingDone <;> cases hw : t.written <;> simp [live, hb, hw]⟩) _ ta
       · exact ⟨sim, td, ta⟩
   | timeout k n =>
     simp only [Event.jar] at hj; subst hj
@@ -275,24 +279,24 @@ theorem dbEv_mine (E : Env T H A R) {S : T → Bool} {j : Nat} {d a : Db T H A R
     | some t =>
       simp only
       split
-      · have hc : CmdIn S (fun x => decide (x = k)) (.pSet t.username t.name (timeoutWrite t.input) : Cmd T H A R) := hSt n t ht
+      · have hc : CmdIn S (fun x => decide (x = k)) (.pSet t.username t.name (timeoutWrite t.input) : Cmd T H A R) := hSt n t ht (by cases hb : t.blockingDone <;> cases hw : t.written <;> simp_all [live])
         have hx := (exec_in sim _ hc).2
         refine ⟨⟨hx.users, hx.probs, hx.running, ?_⟩, ?_, ?_⟩
         · simp only
           rw [updNth_filter_in k (fun t => { t with written := true }) (fun _ => rfl), updNth_filter_in k (fun t => { t with written := true }) (fun _ => rfl)]
           exact congrArg _ hx.tasks
-        · exact tagged_updNth k n (fun t => { t with written := true }) (fun _ => ⟨rfl, rfl⟩) _ td
-        · exact tagged_updNth k n (fun t => { t with written := true }) (fun _ => ⟨rfl, rfl⟩) _ ta
+        · exact tagged_updNth k n (fun t => { t with written := true }) (fun t => ⟨rfl, rfl, by cases hb : t.blockingDone <;> cases hw : t.written <;> simp [live, hb, hw]⟩) _ td
+        · exact tagged_updNth k n (fun t => { t with written := true }) (fun t => ⟨rfl, rfl, by cases hb : t.blockingDone <;> cases hw : t.written <;> simp [live, hb, hw]⟩) _ ta
       · exact ⟨sim, td, ta⟩
 
 /-- the database part of a task event of another jar -/
 theorem dbEv_other (E : Env T H A R) {S : T → Bool} {j : Nat} {d : Db T H A R} (e : Event T) (hj : e.jar ≠ j)
     (hreq : ∀ rq, e ≠ .req rq) (td : TasksTagged S j d) :
     DbSim S (fun k => decide (k = j)) (dbEv E d e) d ∧ TasksTagged S j (dbEv E d e) := by
-  have hSt : ∀ k n t, k ≠ j → nthOf k n d.tasks = some t → S t.username = false := by
-    intro k n t hk ht
+  have hSt : ∀ k n t, k ≠ j → nthOf k n d.tasks = some t → live t = true → S t.username = false := by
+    intro k n t hk ht hl
     have := nthOf_mem k n d.tasks t ht
-    rw [td t this.1]; simp [this.2, hk]
+    rw [td t this.1 hl]; simp [this.2, hk]
   cases e with
   | req rq => exact absurd rfl (hreq rq)
   | finish k n =>
@@ -305,9 +309,9 @@ theorem dbEv_other (E : Env T H A R) {S : T → Bool} {j : Nat} {d : Db T H A R}
       split
       · exact ⟨DbSim.refl .., td⟩
       · refine ⟨⟨rfl, rfl, ?_, ?_⟩, ?_⟩
-        · exact filter_erase_out S t.info (hSt k n t hj ht) d.running
+        · exact filter_erase_out S t.info (hSt k n t hj ht (by cases hb : t.blockingDone <;> cases hw : t.written <;> simp_all [live])) d.running
         · exact updNth_filter_out j k hj (fun t => { t with blockingDone := true }) (fun _ => rfl) n d.tasks
-        · exact tagged_updNth k n (fun t => { t with blockingDone := true }) (fun _ => ⟨rfl, rfl⟩) d.tasks td
+        · exact tagged_updNth k n (fun t => { t with blockingDone := true }) (fun t => ⟨rfl, rfl, by cases hb : t.blockingDone <;> cases hw : t.written <;> simp [live, hb, hw]⟩) d.tasks td
   | write k n =>
     simp only [Event.jar] at hj
     simp only [dbEv]
@@ -318,13 +322,13 @@ theorem dbEv_other (E : Env T H A R) {S : T → Bool} {j : Nat} {d : Db T H A R}
       split
       · have hc : CmdIn (fun x => !S x) (fun x => !(fun k => decide (k = j)) x)
             (.pSet t.username t.name (taskWrite E t.input) : Cmd T H A R) := by
-          simp [CmdIn, hSt k n t hj ht]
+          simp [CmdIn, hSt k n t hj ht (by cases hb : t.blockingDone <;> cases hw : t.written <;> simp_all [live])]
         have hx := exec_out (S := S) (J := fun k => decide (k = j)) d _ hc
         refine ⟨⟨hx.users, hx.probs, hx.running, ?_⟩, ?_⟩
         · simp only
           rw [updNth_filter_out j k hj (fun t => { t with written := true }) (fun _ => rfl)]
           exact hx.tasks
-        · exact tagged_updNth k n (fun t => { t with written := true }) (fun _ => ⟨rfl, rfl⟩) _ td
+        · exact tagged_updNth k n (fun t => { t with written := true }) (fun t => ⟨rfl, rfl, by cases hb : t.blockingDone <;> cases hw : t.written <;> simp [live, hb, hw]⟩) _ td
       · exact ⟨DbSim.refl .., td⟩
   | timeout k n =>
     simp only [Event.jar] at hj
@@ -336,13 +340,13 @@ theorem dbEv_other (E : Env T H A R) {S : T → Bool} {j : Nat} {d : Db T H A R}
       split
       · have hc : CmdIn (fun x => !S x) (fun x => !(fun k => decide (k = j)) x)
             (.pSet t.username t.name (timeoutWrite t.input) : Cmd T H A R) := by
-          simp [CmdIn, hSt k n t hj ht]
+          simp [CmdIn, hSt k n t hj ht (by cases hb : t.blockingDone <;> cases hw : t.written <;> simp_all [live])]
         have hx := exec_out (S := S) (J := fun k => decide (k = j)) d _ hc
         refine ⟨⟨hx.users, hx.probs, hx.running, ?_⟩, ?_⟩
         · simp only
           rw [updNth_filter_out j k hj (fun t => { t with written := true }) (fun _ => rfl)]
           exact hx.tasks
-        · exact tagged_updNth k n (fun t => { t with written := true }) (fun _ => ⟨rfl, rfl⟩) _ td
+        · exact tagged_updNth k n (fun t => { t with written := true }) (fun t => ⟨rfl, rfl, by cases hb : t.blockingDone <;> cases hw : t.written <;> simp [live, hb, hw]⟩) _ td
       · exact ⟨DbSim.refl .., td⟩
 
 end
@@ -429,4 +433,337 @@ theorem nonint_run (E : Env T H A R) (S : T → Bool) (j : Nat) : ∀ (es : List
       | some r => simp [obs, hj]
 
 end
+end ServerM
+
+namespace ServerM
+section dynamic
+variable {T H A R : Type} [DecidableEq T]
+
+/-! ### re-use of account names once nothing of the previous owner is left -/
+
+/-- nothing named `n` exists: no account, no problem, no running entry, no session, no live task -/
+structure Free (n : T) (s : State T H A R) : Prop where
+  users : ∀ u ∈ s.db.users, u.username ≠ n
+  probs : ∀ p ∈ s.db.problems, p.username ≠ n
+  running : ∀ i ∈ s.db.running, i.username ≠ n
+  sess : ∀ k, s.sess k ≠ some n
+  tasks : ∀ t ∈ s.db.tasks, live t = true → t.username ≠ n
+
+/-- the alone state holds nothing but `j`'s: all names in `S`, no other session, no other task -/
+structure Within (S : T → Bool) (j : Nat) (a : State T H A R) : Prop where
+  users : ∀ u ∈ a.db.users, S u.username = true
+  probs : ∀ p ∈ a.db.problems, S p.username = true
+  running : ∀ i ∈ a.db.running, S i.username = true
+  sess : ∀ k, k ≠ j → a.sess k = none
+  tasks : ∀ t ∈ a.db.tasks, t.jar = j
+
+/-- the database part of `Within` -/
+def DbWithin (S : T → Bool) (j : Nat) (d : Db T H A R) : Prop :=
+  (∀ u ∈ d.users, S u.username = true) ∧ (∀ p ∈ d.problems, S p.username = true) ∧
+  (∀ i ∈ d.running, S i.username = true) ∧ (∀ t ∈ d.tasks, t.jar = j)
+
+theorem mem_updFirst {α : Type} (q : α → Bool) (f : α → α) : ∀ (l : List α) (x : α),
+    x ∈ updFirst q f l → x ∈ l ∨ ∃ y ∈ l, q y = true ∧ x = f y := by
+  intro l
+  induction l with
+  | nil => intro x hx; simp [updFirst] at hx
+  | cons y ys ih =>
+    intro x hx
+    unfold updFirst at hx
+    by_cases hy : q y = true
+    · rw [if_pos hy] at hx
+      rcases List.mem_cons.mp hx with h | h
+      · exact Or.inr ⟨y, List.mem_cons_self .., hy, h⟩
+      · exact Or.inl (List.mem_cons_of_mem _ h)
+    · rw [if_neg hy] at hx
+      rcases List.mem_cons.mp hx with h | h
+      · exact Or.inl (h ▸ List.mem_cons_self ..)
+      · rcases ih x h with h' | ⟨z, hz, hq, h'⟩
+        · exact Or.inl (List.mem_cons_of_mem _ h')
+        · exact Or.inr ⟨z, List.mem_cons_of_mem _ hz, hq, h'⟩
+
+theorem mem_delFirst {α : Type} (q : α → Bool) : ∀ (l : List α) (x : α), x ∈ delFirst q l → x ∈ l := by
+  intro l
+  induction l with
+  | nil => intro x hx; simp [delFirst] at hx
+  | cons y ys ih =>
+    intro x hx
+    unfold delFirst at hx
+    by_cases hy : q y = true
+    · rw [if_pos hy] at hx; exact List.mem_cons_of_mem _ hx
+    · rw [if_neg hy] at hx
+      rcases List.mem_cons.mp hx with h | h
+      · exact h ▸ List.mem_cons_self ..
+      · exact List.mem_cons_of_mem _ (ih x h)
+
+theorem exec_within {S : T → Bool} {j : Nat} (d : Db T H A R) (c : Cmd T H A R)
+    (hc : CmdIn S (fun k => decide (k = j)) c) (h : DbWithin S j d) : DbWithin S j (exec d c).1 := by
+  obtain ⟨hu, hp, hr, ht⟩ := h
+  cases c with
+  | uFind n => exact ⟨hu, hp, hr, ht⟩
+  | uInsert u =>
+    simp only [exec]
+    split
+    · exact ⟨hu, hp, hr, ht⟩
+    · refine ⟨?_, hp, hr, ht⟩
+      intro x hx
+      rcases List.mem_append.mp hx with h | h
+      · exact hu x h
+      · simp only [List.mem_singleton] at h; subst h; exact hc
+  | uReplace n u =>
+    simp only [exec]
+    split
+    · exact ⟨hu, hp, hr, ht⟩
+    · refine ⟨?_, hp, hr, ht⟩
+      intro x hx
+      rcases mem_updFirst _ _ _ x hx with h | ⟨y, _, _, h⟩
+      · exact hu x h
+      · subst h; exact hc.2
+  | uDelete n => exact ⟨fun x hx => hu x (mem_delFirst _ _ x hx), hp, hr, ht⟩
+  | pFindOne u n => exact ⟨hu, hp, hr, ht⟩
+  | pFindAll u => exact ⟨hu, hp, hr, ht⟩
+  | pInsert p =>
+    refine ⟨hu, ?_, hr, ht⟩
+    intro x hx
+    simp only [exec] at hx
+    rcases List.mem_append.mp hx with h | h
+    · exact hp x h
+    · simp only [List.mem_singleton] at h; subst h; exact hc
+  | pSet u n w =>
+    refine ⟨hu, ?_, hr, ht⟩
+    intro x hx
+    rcases mem_updFirst _ _ _ x hx with h | ⟨y, hy, _, h⟩
+    · exact hp x h
+    · subst h; rw [Write.apply_username]; exact hp y hy
+  | pDeleteOne u n => exact ⟨hu, fun x hx => hp x (mem_delFirst _ _ x hx), hr, ht⟩
+  | pDeleteAll u => exact ⟨hu, fun x hx => hp x (List.mem_filter.mp hx).1, hr, ht⟩
+  | pRename u u' =>
+    refine ⟨hu, ?_, hr, ht⟩
+    intro x hx
+    simp only [exec, List.mem_map] at hx
+    obtain ⟨y, hy, rfl⟩ := hx
+    split
+    · exact hc.2
+    · exact hp y hy
+  | rContains i => exact ⟨hu, hp, hr, ht⟩
+  | rTasks u n => exact ⟨hu, hp, hr, ht⟩
+  | spawn t =>
+    refine ⟨hu, hp, ?_, ?_⟩
+    · intro x hx
+      simp only [exec] at hx
+      split at hx
+      · exact hr x hx
+      · rcases List.mem_append.mp hx with h | h
+        · exact hr x h
+        · simp only [List.mem_singleton] at h; subst h; exact hc.1
+    · intro x hx
+      simp only [exec] at hx
+      rcases List.mem_append.mp hx with h | h
+      · exact ht x h
+      · simp only [List.mem_singleton] at h; subst h; simpa using hc.2
+
+theorem within_updNth (j jar n : Nat) (f : TaskRec T A → TaskRec T A) (hf : ∀ t, (f t).jar = t.jar)
+    (l : List (TaskRec T A)) (h : ∀ t ∈ l, t.jar = j) : ∀ t ∈ updNth jar f n l, t.jar = j := by
+  intro t ht
+  rcases mem_updNth jar f n l t ht with h' | ⟨y, hy, h'⟩
+  · exact h t h'
+  · subst h'; rw [hf y]; exact h y hy
+
+/-- `j`'s own events keep the alone state within `S` -/
+theorem stepEv_within (E : Env T H A R) {S : T → Bool} {j : Nat} {a : State T H A R} (e : Event T) (hj : e.jar = j)
+    (w : Within S j a) (ia : NsInv S j a) (hn : e.namesIn S) : Within S j (stepEv E a e).1 := by
+  have hdb : DbWithin S j a.db := ⟨w.users, w.probs, w.running, w.tasks⟩
+  cases he : e with
+  | req rq =>
+    subst he
+    simp only [Event.jar] at hj
+    have hown := handler_owned E rq.jar (a.sess rq.jar) rq.req
+    have hU : ∀ u, actor (a.sess rq.jar) rq.req = some u → S u = true := by
+      intro u hu
+      cases hq : rq.req with
+      | add name code file parsing fu fp =>
+        rw [hq] at hu
+        have hn' : ∀ n ∈ reqNames rq.req, S n = true := hn
+        rw [hq] at hn'
+        simp only [actor, Option.some.injEq] at hu
+        cases hs : a.sess rq.jar with
+        | none => rw [hs] at hu; simp only [addUser] at hu; subst hu; exact hn' _ (by simp [reqNames])
+        | some v => rw [hs] at hu; simp only [addUser] at hu; subst hu; exact ia.mine _ (hj ▸ hs)
+      | _ => rw [hq] at hu; exact ia.mine u (hj ▸ hu)
+    have hin := hown.mono (Q' := CmdIn S (fun k => decide (k = j))) (P' := fun _ => True)
+      (Owned.cmdIn hU hn (by simp [hj])) (fun _ _ => trivial)
+    have := run_inv (DbWithin S j) (fun db c hc h => exec_within db c hc h) hin a.db hdb
+    refine ⟨this.1, this.2.1, this.2.2.1, ?_, this.2.2.2⟩
+    intro k hk
+    simp only [stepEv, step, stepT]
+    rw [if_neg (by rw [hj]; exact hk)]
+    exact w.sess k hk
+  | finish k n =>
+    simp only [stepEv, dbEv]
+    cases nthOf k n a.db.tasks with
+    | none => exact w
+    | some t =>
+      simp only
+      split
+      · exact w
+      · refine ⟨w.users, w.probs, ?_, w.sess, ?_⟩
+        · intro i hi; exact w.running i (List.mem_filter.mp hi).1
+        · exact within_updNth j k n (fun t => { t with blockingDone := true }) (fun _ => rfl) _ w.tasks
+  | write k n =>
+    simp only [stepEv, dbEv]
+    cases nthOf k n a.db.tasks with
+    | none => exact w
+    | some t =>
+      simp only
+      split
+      · refine ⟨w.users, ?_, w.running, w.sess, ?_⟩
+        · intro x hx
+          rcases mem_updFirst _ _ _ x hx with h | ⟨y, hy, _, h⟩
+          · exact w.probs x h
+          · subst h; rw [Write.apply_username]; exact w.probs y hy
+        · exact within_updNth j k n (fun t => { t with written := true }) (fun _ => rfl) _ w.tasks
+      · exact w
+  | timeout k n =>
+    simp only [stepEv, dbEv]
+    cases nthOf k n a.db.tasks with
+    | none => exact w
+    | some t =>
+      simp only
+      split
+      · refine ⟨w.users, ?_, w.running, w.sess, ?_⟩
+        · intro x hx
+          rcases mem_updFirst _ _ _ x hx with h | ⟨y, hy, _, h⟩
+          · exact w.probs x h
+          · subst h; rw [Write.apply_username]; exact w.probs y hy
+        · exact within_updNth j k n (fun t => { t with written := true }) (fun _ => rfl) _ w.tasks
+      · exact w
+
+omit [DecidableEq T] in
+theorem filter_congr_names {α : Type} (S S' : T → Bool) (name : α → T) (l : List α)
+    (h : ∀ x ∈ l, S (name x) = S' (name x)) : l.filter (fun x => S (name x)) = l.filter (fun x => S' (name x)) :=
+  List.filter_congr (fun x hx => h x hx)
+
+/-- **re-basing**: the name space may change at names of which nothing exists -/
+theorem rebase {S S' : T → Bool} {j : Nat} {s a : State T H A R} (sim : Sim S j s a) (is : NsInv S j s)
+    (ia : NsInv S j a) (w : Within S j a) (hfree : ∀ n, S n ≠ S' n → Free n s) :
+    Sim S' j s a ∧ NsInv S' j s ∧ NsInv S' j a ∧ Within S' j a := by
+  -- where S and S' differ, neither state holds anything of that name
+  have eqS : ∀ n, (¬ Free n s) → S n = S' n := by
+    intro n hn
+    cases hS : S n <;> cases hS' : S' n <;> first | rfl | exact absurd (hfree n (by simp [hS, hS'])) hn
+  have su : ∀ u ∈ s.db.users, S u.username = S' u.username :=
+    fun u hu => eqS _ (fun hf => hf.users u hu rfl)
+  have sp : ∀ p ∈ s.db.problems, S p.username = S' p.username :=
+    fun p hp => eqS _ (fun hf => hf.probs p hp rfl)
+  have sr : ∀ i ∈ s.db.running, S i.username = S' i.username :=
+    fun i hi => eqS _ (fun hf => hf.running i hi rfl)
+  -- the alone state: an item named n with S n = true also sits in the full state's view
+  have au : ∀ u ∈ a.db.users, S u.username = S' u.username := by
+    intro u hu
+    have hSu := w.users u hu
+    have : u ∈ s.db.users.filter (fun x => S x.username) := by
+      rw [sim.db.users]; exact List.mem_filter.mpr ⟨hu, hSu⟩
+    exact su u (List.mem_filter.mp this).1
+  have ap : ∀ p ∈ a.db.problems, S p.username = S' p.username := by
+    intro p hp
+    have hSp := w.probs p hp
+    have : p ∈ s.db.problems.filter (fun x => S x.username) := by
+      rw [sim.db.probs]; exact List.mem_filter.mpr ⟨hp, hSp⟩
+    exact sp p (List.mem_filter.mp this).1
+  have ar : ∀ i ∈ a.db.running, S i.username = S' i.username := by
+    intro i hi
+    have hSi := w.running i hi
+    have : i ∈ s.db.running.filter (fun x => S x.username) := by
+      rw [sim.db.running]; exact List.mem_filter.mpr ⟨hi, hSi⟩
+    exact sr i (List.mem_filter.mp this).1
+  have sessS : ∀ k u, s.sess k = some u → S u = S' u := fun k u h => eqS _ (fun hf => hf.sess k h)
+  have taskS : ∀ t ∈ s.db.tasks, live t = true → S t.username = S' t.username :=
+    fun t ht hl => eqS _ (fun hf => hf.tasks t ht hl rfl)
+  refine ⟨⟨⟨?_, ?_, ?_, sim.db.tasks⟩, sim.sess⟩, ⟨?_, ?_, ?_⟩, ⟨?_, ?_, ?_⟩, ⟨?_, ?_, ?_, w.sess, w.tasks⟩⟩
+  · rw [← filter_congr_names S S' (fun u : User T H => u.username) _ su,
+        ← filter_congr_names S S' (fun u : User T H => u.username) _ au]; exact sim.db.users
+  · rw [← filter_congr_names S S' (fun p : Problem T A R => p.username) _ sp,
+        ← filter_congr_names S S' (fun p : Problem T A R => p.username) _ ap]; exact sim.db.probs
+  · rw [← filter_congr_names S S' (fun i : RInfo T => i.username) _ sr,
+        ← filter_congr_names S S' (fun i : RInfo T => i.username) _ ar]; exact sim.db.running
+  · intro u hu; rw [← sessS j u hu]; exact is.mine u hu
+  · intro k hk u hu; rw [← sessS k u hu]; exact is.others k hk u hu
+  · intro t ht hl; rw [← taskS t ht hl]; exact is.tasks t ht hl
+  · intro u hu; rw [← sessS j u (sim.sess ▸ hu)]; exact ia.mine u hu
+  · intro k hk u hu; rw [w.sess k hk] at hu; cases hu
+  · intro t ht hl
+    have htj : t.jar = j := w.tasks t ht
+    have : t ∈ s.db.tasks.filter (fun x => decide (x.jar = j)) := by
+      rw [sim.db.tasks]; exact List.mem_filter.mpr ⟨ht, by simpa using htj⟩
+    rw [← taskS t (List.mem_filter.mp this).1 hl]; exact ia.tasks t ht hl
+  · intro u hu; rw [← au u hu]; exact w.users u hu
+  · intro p hp; rw [← ap p hp]; exact w.probs p hp
+  · intro i hi; rw [← ar i hi]; exact w.running i hi
+
+/-- the account names an event mentions -/
+def evNames : Event T → List T
+  | .req rq => reqNames rq.req
+  | _ => []
+
+/-- **the discipline of account names, as far as jar `j` is concerned**: mentioning a name claims it
+(`own` is the ghost record of who claimed which name last).  `j` may mention a name only if `j`
+itself claimed it last, or nothing of that name exists any more (no account, no problem, no running
+entry, no session, no unfinished task); another jar may mention a name that `j` claimed last only
+if nothing of that name exists any more.  What the other jars do among themselves is not restricted. -/
+def Disciplined (E : Env T H A R) (j : Nat) : (T → Option Nat) → State T H A R → List (Event T) → Prop
+  | _, _, [] => True
+  | own, st, e :: es =>
+    (∀ n ∈ evNames e, (if e.jar = j then own n = some j else own n ≠ some j) ∨ Free n st) ∧
+    Disciplined E j (fun n => if n ∈ evNames e then some e.jar else own n) (stepEv E st e).1 es
+
+/-- the name space of jar `j` under the ghost record -/
+def spaceOf (own : T → Option Nat) (j : Nat) : T → Bool := fun n => decide (own n = some j)
+
+theorem nonint_dyn (E : Env T H A R) (j : Nat) : ∀ (es : List (Event T)) (own : T → Option Nat) (s a : State T H A R),
+    Sim (spaceOf own j) j s a → NsInv (spaceOf own j) j s → NsInv (spaceOf own j) j a → Within (spaceOf own j) j a →
+    Disciplined E j own s es →
+    obs j (runAll E s es).2 = obs j (runAll E a (es.filter (fun e => decide (e.jar = j)))).2 := by
+  intro es
+  induction es with
+  | nil => intro _ s a _ _ _ _ _; rfl
+  | cons e es ih =>
+    intro own s a sim is ia w hd
+    obtain ⟨hnames, hrest⟩ := hd
+    -- the name space after the event's claims
+    have hfree : ∀ n, spaceOf own j n ≠ spaceOf (fun n => if n ∈ evNames e then some e.jar else own n) j n → Free n s := by
+      intro n hne
+      by_cases hmem : n ∈ evNames e
+      · rcases hnames n hmem with h | h
+        · exfalso; apply hne
+          by_cases hj : e.jar = j
+          · rw [if_pos hj] at h; simp [spaceOf, hmem, h, hj]
+          · rw [if_neg hj] at h; simp [spaceOf, hmem, h, hj]
+        · exact h
+      · exfalso; apply hne; simp [spaceOf, hmem]
+    obtain ⟨sim', is', ia', w'⟩ := rebase sim is ia w hfree
+    by_cases hj : e.jar = j
+    · have hn : e.namesIn (spaceOf (fun n => if n ∈ evNames e then some e.jar else own n) j) := by
+        cases e with
+        | req rq => intro n hn; simp [spaceOf, evNames, hn]; exact hj
+        | finish _ _ => trivial
+        | write _ _ => trivial
+        | timeout _ _ => trivial
+      have hm := stepEv_mine E e hj sim' is' ia' hn
+      have hw := stepEv_within E e hj w' ia' hn
+      simp only [List.filter_cons, hj, decide_true, if_true, runAll, obs_append]
+      rw [ih _ _ _ hm.2.1 hm.2.2.1 hm.2.2.2 hw hrest, hm.1]
+    · have hn : e.namesIn (fun x => !spaceOf (fun n => if n ∈ evNames e then some e.jar else own n) j x) := by
+        cases e with
+        | req rq => intro n hn; simp [spaceOf, evNames, hn]; exact hj
+        | finish _ _ => trivial
+        | write _ _ => trivial
+        | timeout _ _ => trivial
+      have ho := stepEv_other E e hj sim' is' hn
+      simp only [List.filter_cons, hj, decide_false, Bool.false_eq_true, if_false, runAll, obs_append]
+      rw [ih _ _ _ ho.1 ho.2 ia' w' hrest]
+      cases (stepEv E s e).2 with
+      | none => simp [obs]
+      | some r => simp [obs, hj]
+
+end dynamic
 end ServerM
